@@ -197,7 +197,7 @@ fn gen(ctx: &GenCtx, i: u64) -> Option<Run> {
                 o.insert("nbf".to_string(), serde_json::json!(*r.pick(&TS)));
             }
             let out = rb.msg();
-            rb.push(Op::CoreIssue { proto, key, nonce_hex: if proto.is_local() { nonce_for(proto, &mut r) } else { String::new() }, payload: serde_json::Value::Object(o).to_string(), footer: None, assertion: None, out, order: 0 });
+            rb.push(Op::CoreIssue { proto, key, nonce_hex: if proto.is_local() { nonce_for(proto, &mut r) } else { String::new() }, payload: serde_json::Value::Object(o).to_string(), footer: None, assertion: None, out, order: 0, rebuild: false });
             for v in &vs {
                 rb.deliver(out, *v, *r.pick(&nows));
             }
@@ -212,7 +212,7 @@ fn gen(ctx: &GenCtx, i: u64) -> Option<Run> {
             deep_arr.as_str(), deep_obj.as_str(), long_str.as_str(), "{\"exp\" \"x\"}", "{", "\u{feff}{}",
         ] {
             let out = rb.msg();
-            rb.push(Op::CoreIssue { proto, key, nonce_hex: if proto.is_local() { nonce_for(proto, &mut r) } else { String::new() }, payload: p.to_string(), footer: None, assertion: None, out, order: 0 });
+            rb.push(Op::CoreIssue { proto, key, nonce_hex: if proto.is_local() { nonce_for(proto, &mut r) } else { String::new() }, payload: p.to_string(), footer: None, assertion: None, out, order: 0, rebuild: false });
             for v in &vs {
                 rb.deliver(out, *v, nows[0]);
             }
